@@ -79,6 +79,33 @@ pub fn subs() -> Vec<Box<dyn AnySub>> {
             },
             check: check_derive_seq,
         }),
+        // one and the same derivation over and over on one thread (a cache's counters, an eviction policy, a buffer that grows)
+        Box::new(EnumSub {
+            name: "same-derivation-many-times",
+            exhaustive: true,
+            list: |t| {
+                let mut v = vec![255u32, 256, 257, 258, 1_000, 4_097];
+                if t == Tier::Thorough {
+                    v.extend([65_535, 65_536, 65_537, 100_000]);
+                }
+                v
+            },
+            check: |n, cc| {
+                let d = Derive { trace: false, secret: "wJalrXUtnFEMI/K7MDENG+bPxRfiCYEXAMPLEKEY".into(), y: 2015, m: 8, d: 30, region: format!("us-east-{}", n % 7), service: "iam".into() };
+                let mut scratch = CaseCtx::default();
+                for i in 0..*n {
+                    check_derive(&d, &mut scratch).map_err(|f| Failure::new(&format!("{}:repeated", f.sig), format!("{} -- at repetition {} of the same derivation on one thread", f.msg, i + 1)))?;
+                    // now and then another scope in between
+                    if i % 1009 == 1008 {
+                        check_derive(&Derive { service: "s3".into(), ..d.clone() }, &mut scratch)?;
+                    }
+                }
+                cc.class("repeated-derivation");
+                cc.nontrivial(digest_of(&[&n.to_le_bytes()]));
+                cc.sample(json!({"repetitions": n}));
+                Ok(())
+            },
+        }),
         // the same operations while a logger renders every record down to trace level
         Box::new(EnumSub {
             name: "capacity-with-trace-logging",
